@@ -7,7 +7,7 @@ from typing import Dict, List, Optional, Set, Tuple
 
 from ..astutil import arg_of, call_name, calls, enclosing_loops, guards, kwarg, last_attr, stmt_key, txt, walk_local
 from ..cfg import CFG
-from ..flow import bound_from
+from ..flow import bound_from, inline_reaching
 from ..index import UNRESOLVED, AnalysisError, ClassInfo, _walk_functions, dotted
 from ..report import Ctx
 from .jsonkeys import read_keys, written_keys
@@ -137,7 +137,23 @@ def r10_2(ctx: Ctx) -> None:
            detail=f"not chained: {sorted(feature_lists - chained)}" if feature_lists - chained else "",
            form=f"stored={sorted(feature_lists)}")
     tb = ctx.fn(REC, "Record.to_biopython")
-    ok = "sorted(self.all_features)" in txt(tb) and "feature.to_biopython()" in txt(tb)
+    tcfg = CFG(tb)
+    ok = False
+    # a loop or comprehension over sorted(self.all_features) that converts its variable
+    for node in ast.walk(tb):
+        iters = []
+        if isinstance(node, ast.For):
+            iters.append((node.target, node.iter, node.body))
+        elif isinstance(node, (ast.ListComp, ast.GeneratorExp)):
+            iters += [(gen.target, gen.iter, [node.elt]) for gen in node.generators]
+        for target, it, body in iters:
+            stmt = next((a for a in [node] + list(_ancestors(node)) if isinstance(a, ast.stmt)), None)
+            resolved = inline_reaching(tcfg, stmt, it) if stmt is not None else it
+            if isinstance(resolved, ast.Call) and call_name(resolved) == "sorted" and resolved.args \
+                    and txt(resolved.args[0]) == "self.all_features" and not resolved.keywords \
+                    and any(isinstance(c, ast.Call) and last_attr(c) == "to_biopython" and txt(c.func.value) == txt(target)
+                            for b in body for c in ast.walk(b)):
+                ok = True
     ctx.ob("R10.2", REC, tb, "Record.to_biopython", "features converted in sorted order", ok,
            "the record writes every feature of all_features, in sorted order", form="")
     # dispatch
@@ -200,9 +216,22 @@ def r10_3(ctx: Ctx) -> None:
                 ctx.ob("R10.3", REC, func, "Record.from_biopython", f"{dep} before {name}", ok,
                        "postponed kinds are rebuilt in dependency order", form=str(kinds))
         _ = base
-    ok = "OrderedDict()" in txt(func) and any(isinstance(n, ast.For) and "postponed_features.values()" in txt(n.iter) for n in walk_local(func))
+    # the postponed kinds live in an insertion-ordered mapping that is walked as it is (never sorted, never a set)
+    holders = {t.id for n in walk_local(func) if isinstance(n, (ast.Assign, ast.AnnAssign)) and n.value is not None
+               and (isinstance(n.value, ast.Dict) or isinstance(n.value, ast.Call) and call_name(n.value) in ("OrderedDict", "dict"))
+               for t in ([n.target] if isinstance(n, ast.AnnAssign) else n.targets) if isinstance(t, ast.Name) and "postponed" in t.id}
+    walks = [n for n in walk_local(func) if isinstance(n, ast.For) and txt(n.iter) in {f"{h}{suffix}" for h in holders
+                                                                                       for suffix in (".values()", ".items()", "")}]
+    ok = bool(holders) and bool(walks)
     ctx.ob("R10.3", REC, func, "Record.from_biopython", "postponed processed in insertion order", ok,
            "the postponed kinds are processed in the order they were listed", form="")
+
+
+def _ancestors(node: ast.AST):
+    cur = getattr(node, "_parent", None)
+    while cur is not None:
+        yield cur
+        cur = getattr(cur, "_parent", None)
 
 
 def r10_4(ctx: Ctx) -> None:
